@@ -9,7 +9,8 @@ ROOT = os.path.dirname(os.path.dirname(os.path.abspath(__file__)))
 
 
 def short(s, n):
-    s = " ".join(str(s).split())
+    s = "".join(ch if ch.isprintable() else "?" for ch in str(s))
+    s = " ".join(s.split())
     s = s.replace("|", "\\|")
     return s if len(s) <= n else s[: n - 3] + "..."
 
